@@ -32,6 +32,7 @@ pub fn history_rules(prog: &Program, trace: &[Ev]) -> Vec<Verdict>
                 *r += 1;
                 if *n != *r || *cap != *r { push(&mut out, "C13", "h-local-continuity", &[], pos, format!("instance {inst}: run #{r} sees Local={n}, captured={cap}")); }
                 if *chg != (*r == 1) { push(&mut out, "C13", "h-change-detection-baseline", &["C17"], pos, format!("instance {inst}: run #{r} sees a never-touched resource as changed={chg}")); }
+                if s.inconsistent { push(&mut out, "C03", "h-reader-accessors-disagree", &["C04"], pos, format!("instance {inst} run {n}: the accessors of one event reader contradict each other ({s:?})")); }
                 if s.second_take { push(&mut out, "C04", "h-second-take", &[], pos, format!("instance {inst} took a system event twice")); }
                 if s.count() > 1 { push(&mut out, "C03", "h-saw-two-events", &["C04", "C12"], pos, format!("instance {inst} run {n} sees more than one event: {s:?}")); }
             }
